@@ -69,6 +69,27 @@ META = {
 }
 
 TARGET, TMP = 'T', 'T.tmp'
+MODNAME = 'm'
+
+# where the file of the module under test lives.  NOT computed here: `file` / `chain` (components below the log directory) are
+# what the Lean model (`Small/PersistPlace`: persistentFile, prefixes of its directory) derives from equipment id and module
+# name (driver verb `place`); the file layer calls *that* file `T`.  An implementation that puts its file elsewhere writes
+# files that are not `T`.
+_PLACE = {'eq': 'eq', 'file': ['persistent', 'eq.m.json'], 'chain': [[], ['persistent']]}
+_places = {}
+
+
+def use_place(ctx, eq):
+    """every Bench created from now on belongs to a node with this equipment id"""
+    if eq not in _places:
+        a = ctx.driver.batch([{'p': 'C17', 'k': 'place', 'eq': eq, 'mod': MODNAME}])[0]
+        if 'driver_error' in a:
+            raise RuntimeError(f'driver error: {a}')
+        if a['file'][:1] != ['persistent'] or any(c in ('', '.', '..') or '/' in c for c in a['file']):
+            raise RuntimeError(f'place outside the scratch directory: {a}')
+        _places[eq] = {'eq': eq, 'file': a['file'], 'chain': a['chain']}
+    _PLACE.clear()
+    _PLACE.update(_places[eq])
 
 # the real functions, taken before anything is replaced: the file layer itself and everything the harness does on its own
 # behalf (snapshots, preparing a directory) use these
@@ -79,7 +100,8 @@ _open, _rename, _replace, _remove, _unlink = builtins.open, os.rename, os.replac
 # stubs
 # ----------------------------------------------------------------------------------------
 class _SecNode:
-    equipment_id = 'eq'
+    def __init__(self):
+        self.equipment_id = _PLACE['eq']
 
 
 class _Dispatcher:
@@ -132,7 +154,8 @@ class FaultFS:
     def __init__(self, root, buf=None):
         self.root = str(root)
         self.pdir = os.path.join(self.root, 'persistent')
-        self.tname = 'eq.m.json'
+        self.tname = os.path.join(*_PLACE['file'][1:])      # relative to `pdir`; may lie in a subdirectory
+        self.chain = [os.path.join(self.root, *c) for c in _PLACE['chain']]   # log directory ... directory of the file
         self.buf = buf         # None: the buffering of the builtin open; [buffer size, text chunk size]: a smaller one
         self.reset()
 
@@ -161,16 +184,47 @@ class FaultFS:
         except OSError:
             return None
 
+    def files(self):
+        """every regular file below the log directory: [(components below the log directory, path)]"""
+        out = []
+        for d, _, fns in os.walk(self.root):
+            for fn in fns:
+                path = os.path.join(d, fn)
+                out.append((os.path.relpath(path, self.root).split(os.sep), path))
+        return sorted(out)
+
+    def tree(self):
+        """-> [[components, content as hex]] of every regular file below the log directory"""
+        out = []
+        for comps, path in self.files():
+            try:
+                with _open(path, 'rb') as f:
+                    out.append([comps, f.read().hex()])
+            except OSError:
+                pass
+        return out
+
     def state(self):
-        names = {self.tname: TARGET, self.tname + '.tmp': TMP}
-        try:
-            listing = sorted(names.get(x, x) for x in os.listdir(self.pdir))
-        except OSError:
-            listing = []
-        return (self.content(self.tname), self.content(self.tname + '.tmp'), listing)
+        """(content of the file, content of its temporary neighbour, canonical names of all files below the log directory)"""
+        return (self.content(self.tname), self.content(self.tname + '.tmp'), sorted(self.canon(path) for _, path in self.files()))
+
+    def dirs(self):
+        """which directories exist, from the log directory down to the directory of the file"""
+        return [os.path.isdir(d) for d in self.chain]
+
+    def set_dirs(self, have):
+        """puts back a state of the directories in which fewer existed: the first one that was missing is removed with its tree"""
+        for d, h in zip(self.chain, have):
+            if not h:
+                shutil.rmtree(d, ignore_errors=True)
+                break
+
+    def wipe(self, depth):
+        """the tree below (and including) the `depth`-th directory on the way to the file disappears"""
+        shutil.rmtree(self.chain[min(depth, len(self.chain) - 1)], ignore_errors=True)
 
     def set_state(self, target, tmp):
-        os.makedirs(self.pdir, exist_ok=True)
+        """puts the two files into this state; directories are created only if a file is to be written"""
         for name, c in ((self.tname, target), (self.tname + '.tmp', tmp)):
             path = os.path.join(self.pdir, name)
             if c is None:
@@ -179,6 +233,7 @@ class FaultFS:
                 except OSError:
                     pass
             else:
+                os.makedirs(os.path.dirname(path), exist_ok=True)
                 with _open(path, 'wb') as f:
                     f.write(c)
 
@@ -658,7 +713,7 @@ def step_record(bench, m, exc):
     return {'evs': [list(e) for e in fs.log], 'snaps': list(fs.snaps), 'raised': exc is not None, 'exc': exc,
             'values': values_of(m) if m is not None else None, 'writeDict': wd_of(m) if m is not None else None,
             'writes': list(m.wlog) if m is not None else [], 'target': t, 'tmp': tmp, 'listing': listing,
-            'hooks': hooks_of(m) if m is not None else None}
+            'hooks': hooks_of(m) if m is not None else None, 'dirs': fs.dirs(), 'tree': fs.tree()}
 
 
 def litter_listing(rec):
@@ -697,10 +752,19 @@ def run_impl(spec, case, trials=True, crash_budget=None, rng=None):
         fs = bench.fs
         init = case.get('file')
         fs.set_state(None if init is None else bytes.fromhex(init), None if case.get('stale') is None else bytes.fromhex(case['stale']))
+        if case.get('have') is not None and init is None and case.get('stale') is None:
+            # the first `have` directories on the way to the file exist, the others do not (0: not even the log directory)
+            k = min(case['have'], len(fs.chain))
+            if k:
+                os.makedirs(fs.chain[k - 1], exist_ok=True)
+            if k < len(fs.chain):
+                shutil.rmtree(fs.chain[k], ignore_errors=True)
         pre = fs.state()
+        pre_dirs = fs.dirs()
         m, exc = bench.create(spec, case.get('fault'), trace=True)
         rec = step_record(bench, m, exc)
         rec['pre'] = pre
+        rec['pre_dirs'] = pre_dirs
         rec['instr'] = bench.created_instr
         out['steps'].append(rec)
         if m is None:
@@ -710,6 +774,17 @@ def run_impl(spec, case, trials=True, crash_budget=None, rng=None):
         rec['data'] = out['datas'][-1]
         for act in case['acts']:
             pre = fs.state()
+            pre_dirs = fs.dirs()
+            if act['a'] == 'wipe':
+                # not an action of the module: somebody removes a directory behind its back
+                fs.wipe(act['depth'])
+                fs.reset(None)
+                m.wlog = []
+                rec = step_record(bench, m, None)
+                rec.update(pre=pre, pre_dirs=pre_dirs, instr=[], data=export_data(m))
+                out['datas'].append(rec['data'])
+                out['steps'].append(rec)
+                continue
             believed = m.persistentData
             pstate = {n: (p.value, p.readerror, p.timestamp) for n, p in m.parameters.items()}
             wdstate = dict(m.writeDict)
@@ -724,6 +799,7 @@ def run_impl(spec, case, trials=True, crash_budget=None, rng=None):
                     exc = type(e).__name__
             rec = step_record(bench, m, exc)
             rec['pre'] = pre
+            rec['pre_dirs'] = pre_dirs
             rec['instr'] = tr.seen
             rec['data'] = export_data(m)
             out['datas'].append(rec['data'])
@@ -758,6 +834,7 @@ def run_impl(spec, case, trials=True, crash_budget=None, rng=None):
                     if kind != 'remove' and (kind != 'write' or k % 3 == 1):
                         variants.append((0, False, True))      # ... and the remove of the clean-up fails as well
                     for part, sticky, cleanup in variants:
+                        fs.set_dirs(pre_dirs)      # a save that had to create its directory meets every fault in that state, too
                         fs.set_state(pre[0], pre[1])
                         m.persistentData = believed
                         m.paramCallbacks = {n: list(cbs) for n, cbs in callbacks.items()}
@@ -974,6 +1051,9 @@ class Tables:
 # ----------------------------------------------------------------------------------------
 # histories
 # ----------------------------------------------------------------------------------------
+EQ_SEGMENTS = ['eq', 'ex.frappy.demo', 'lab', 'cryo7', 'a', 'rack 3', 'x.y', 'ümlaut', '.hidden', 'unit_1', '...']
+
+
 def gen_case(rng, spec, big):
     """a history without faults (`place_faults` adds them)"""
     acts = []
@@ -1004,6 +1084,30 @@ def gen_case(rng, spec, big):
             act = {'a': 'factoryReset'}
         acts.append(act)
     case = {'acts': acts, 'file': None, 'stale': None, 'fault': None, 'buf': rng.choice(BUFFERINGS)}
+    # where the file lives: the equipment id is free text; 40 % contain path separators (the file then lives in a subdirectory
+    # of <logdir>/persistent), some with superfluous ones.  (Not generated: ids starting with '/' or with a component '..' -
+    # the file would leave the scratch directory; outside the model, see Small/PersistPlace.)
+    if rng.random() < 0.4:
+        segs = [rng.choice(EQ_SEGMENTS) for _ in range(rng.randint(2, 3))]
+        case['eq'] = rng.choice(['/', '/', '/', '//', '/./']).join(segs) + rng.choice(['', '', '', '/'])
+    elif rng.random() < 0.5:
+        case['eq'] = rng.choice(EQ_SEGMENTS)
+    # which directories exist at the first start (None: whatever the preparation of the files left; 0: not even the log directory)
+    if rng.random() < 0.5:
+        case['have'] = rng.randint(0, 4)
+    # directories disappear while the module runs (25 % of the histories): the tree below the log directory, <logdir>/persistent
+    # or a subdirectory is removed; in 75 % a persistent parameter changes afterwards (saved at once if `auto`, else by an
+    # explicit save), so that the next save has something to write
+    if rng.random() < 0.25:
+        for _ in range(rng.randint(1, 2)):
+            at = rng.randint(0, len(acts))
+            ins = [{'a': 'wipe', 'depth': rng.randint(0, 3)}]
+            if pers and rng.random() < 0.75:
+                p = rng.choice(pers)
+                ins.append({'a': 'set', 'name': p['name'], 'val': gen_val(rng, p['dt'], valid=True)})
+                if p['flag'] == 'on' or rng.random() < 0.3:
+                    ins.append({'a': 'save'})
+            acts[at:at] = ins
     if rng.random() < 0.15:
         case['fault'] = {'idx': rng.randint(0, 12), 'part': rng.choice([0, 0.5]), 'sticky': rng.random() < 0.3, 'cleanup': rng.random() < 0.2}
     if rng.random() < 0.25:
@@ -1026,6 +1130,8 @@ def place_faults(rng, spec, case):
     for i, act in enumerate(case['acts']):
         out.append(act)
         n = len(dry[i + 1]['evs']) if i + 1 < len(dry) else 0
+        if act['a'] == 'wipe':
+            continue
         if n and rng.random() < 0.35:
             act['fault'] = {'idx': rng.choice([0, 1, n - 4, n - 3, n - 2, n - 1, rng.randrange(n)]) % n, 'part': rng.choice([0, 0.5, 1]),
                             'sticky': rng.random() < 0.3, 'cleanup': rng.random() < 0.2}
@@ -1068,6 +1174,9 @@ def model_request(spec, case, ref, impl, tables):
     acts = []
     for i, act in enumerate(case['acts']):
         rec = steps[i + 1] if i + 1 < len(steps) else {'evs': []}
+        if act['a'] == 'wipe':
+            acts.append({'a': 'wipe', 'depth': min(act['depth'], len(_PLACE['chain']) - 1)})
+            continue
         a = {'a': act['a'], 'fault': fault_json(act.get('fault'), rec)}
         if act['a'] == 'set':
             a['name'] = act['name']
@@ -1078,12 +1187,14 @@ def model_request(spec, case, ref, impl, tables):
             a['name'] = act['name']
         acts.append(a)
     return {'p': 'C17', 'k': 'hist', 'tables': tables, 'params': params, 'wd0': wd0, 'file': case.get('file'),
-            'stale': case.get('stale'), 'fault': fault_json(case.get('fault'), steps[0]), 'acts': acts}
+            'stale': case.get('stale'), 'fault': fault_json(case.get('fault'), steps[0]), 'acts': acts,
+            'eq': _PLACE['eq'], 'mod': MODNAME, 'dirs0': steps[0]['pre_dirs']}
 
 
 def obs_step(rec):
     return {'evs': rec['evs'], 'writes': rec['writes'], 'raised': rec['raised'], 'values': rec['values'],
-            'writeDict': rec['writeDict'], 'hooks': rec['hooks'], 'target': hexo(rec['target']), 'tmp': hexo(rec['tmp'])}
+            'writeDict': rec['writeDict'], 'hooks': rec['hooks'], 'target': hexo(rec['target']), 'tmp': hexo(rec['tmp']),
+            'dirs': rec['dirs']}
 
 
 def new_bytes(data):
@@ -1203,7 +1314,7 @@ def judge_failed_startup(ctx, res, spec, case, ref, first, full):
         mo = ctx.driver.batch([model_request(spec, dict(case, acts=[]), ref, {'steps': [first]}, tables)])[0]
         if 'driver_error' in mo:
             raise RuntimeError(f'driver error: {mo}')
-        keys = ('evs', 'raised', 'target', 'tmp')
+        keys = ('evs', 'raised', 'target', 'tmp', 'dirs')
         got, want = obs_step(first), mo['steps'][0]
         if any(got[k] != want[k] for k in keys):
             res.disagreements.append({'case': full, 'first_bad_step': 0, 'model': {k: want[k] for k in keys},
@@ -1241,6 +1352,19 @@ def judge_failed_startup(ctx, res, spec, case, ref, first, full):
 
 def check_case(ctx, res, spec, case, quick_crash=3, kind='history'):
     """run one history on the implementation, compare with the model, judge; appends to res"""
+    use_place(ctx, case.get('eq', 'eq'))
+    try:
+        return _check_case(ctx, res, spec, case, quick_crash, kind)
+    finally:
+        use_place(ctx, 'eq')
+
+
+def place_text(rec):
+    return ('the file ' + '/'.join(['<logdir>'] + _PLACE['file']) + ', of the directories '
+            + str(['/'.join(['<logdir>'] + c) for c in _PLACE['chain']]) + ' there were ' + str(rec.get('pre_dirs')) + ' before the call')
+
+
+def _check_case(ctx, res, spec, case, quick_crash, kind):
     rng = ctx.rng
     ref = restart(spec, None, None)
     if ref.get('module') is None:
@@ -1256,7 +1380,7 @@ def check_case(ctx, res, spec, case, quick_crash=3, kind='history'):
         if case.get('fault') is None:
             res.violations.append({'sig': 'C17:startup-aborted:' + str(first['exc']),
                                    'what': f'module creation raised {first["exc"]} with stored file content '
-                                           f'{bytes.fromhex(case["file"] or "")[:60]!r}', 'case': full})
+                                           f'{bytes.fromhex(case["file"] or "")[:60]!r} ({place_text(first)})', 'case': full})
         else:
             judge_failed_startup(ctx, res, spec, case, ref, first, full)
         res.count('start.aborted')
@@ -1286,6 +1410,19 @@ def check_case(ctx, res, spec, case, quick_crash=3, kind='history'):
             res.count('instr.change-without-logged-operation')
             reqs.append({'p': 'C17', 'k': 'judge_litter', 'target': TARGET, 'listing': litter_listing(rec)})
             tags.append(('litter', ('step', i)))
+    # ---- where the file lives: every call that met no injected I/O failure (start-up, every action) must not fail, and if it
+    # touched the file system the snapshot of the current values is in place - at the path the Lean model derives from equipment
+    # id and module name, whatever directories existed - and nothing else is in the tree
+    for i, rec in enumerate(steps):
+        act = case['acts'][i - 1] if i > 0 else {'a': 'start', 'fault': case.get('fault')}
+        if act['a'] == 'wipe' or act.get('fault') is not None:
+            continue
+        reqs.append({'p': 'C17', 'k': 'judge_place', 'eq': _PLACE['eq'], 'mod': MODNAME, 'new': new_bytes(rec['data']).hex(),
+                     'raised': rec['raised'], 'ops': len(rec['evs']), 'tree': rec['tree']})
+        tags.append(('place', i))
+        res.traces += 1
+        if rec['evs']:
+            res.count('place.saved.dirs-before=%s/%s' % (sum(rec['pre_dirs']), len(rec['pre_dirs'])))
     # ---- fork trials
     for j, t in enumerate(impl['trials']):
         new = new_bytes(t['data'])
@@ -1340,14 +1477,27 @@ def check_case(ctx, res, spec, case, quick_crash=3, kind='history'):
             r = restart(spec, target, tmp)
             cache[key] = r
         return cache[key]
+    on_disk, taken_away = None, False
     for i, rec in enumerate(steps):
+        if i > 0 and case['acts'][i - 1]['a'] == 'wipe':
+            if rec['pre'][0] is not None and rec['target'] is None:
+                taken_away = True
+                try:
+                    on_disk = json.loads(rec['pre'][0].decode('utf-8'))
+                except ValueError:
+                    on_disk = None
+            continue
         if not rec['evs']:
             # a step that is a save by the documented triggers (saveParameters(), or a change of an `auto` parameter, while
             # no configured write is pending), was not disturbed and returned normally, but touched no file: the file
-            # must hold the values already ("loading after saving restores ...")
+            # must hold the values already ("loading after saving restores ...").  Not demanded: that the module notices
+            # that somebody took its file away - after a wipe, a save of the very data that were last put on disk is excused
             act = case['acts'][i - 1] if i > 0 else None
             if (act is not None and act.get('fault') is None and not rec['raised'] and not steps[i - 1]['writeDict']
                     and (act['a'] == 'save' or (act['a'] == 'set' and flags.get(act['name']) == 'auto'))):
+                if taken_away and rec['data'] == on_disk:
+                    res.count('roundtrip.silent-save-after-wipe.excused')
+                    continue
                 r = restarted(rec['target'], rec['tmp'])
                 reqs.append({'p': 'C17', 'k': 'judge_restore', 'saved': [nongiven_saved(spec, ref, rec['values'])],
                              'restored': r['values'] if r['values'] is not None else []})
@@ -1357,6 +1507,7 @@ def check_case(ctx, res, spec, case, quick_crash=3, kind='history'):
             continue
         cur = nongiven_saved(spec, ref, rec['values'])
         if rec['target'] is not None and rec['target'] == new_bytes(rec['data']):
+            taken_away = False
             r = restarted(rec['target'], rec['tmp'])
             reqs.append({'p': 'C17', 'k': 'judge_restore', 'saved': [cur],
                          'restored': r['values'] if r['values'] is not None else []})
@@ -1417,6 +1568,18 @@ def check_case(ctx, res, spec, case, quick_crash=3, kind='history'):
                                    'what': f'between two instructions of frappy/persistent.py (line {line}) the persistent file holds '
                                            f'neither the old nor the new snapshot: {(snap or b"<no file>")[:80]!r}',
                                    'case': dict(full, where=where)})
+        elif tag == 'place' and not a['ok']:
+            rec = steps[where]
+            what = 'module creation' if where == 0 else f'step {where} ({case["acts"][where - 1]["a"]})'
+            found = dict((tuple(c), h) for c, h in rec['tree']).get(tuple(a['file']))
+            res.violations.append({'sig': 'C17:not-saved-in-place',
+                                   'what': f'{what} met no I/O failure and '
+                                           + (f'raised {rec["exc"]}' if rec['raised'] else 'returned')
+                                           + f' after {len(rec["evs"])} file operations ({[e[:2] for e in rec["evs"]][:3]} ...); '
+                                           + ('its file does not exist' if found is None else 'its file does not hold the snapshot of the current values'
+                                              if found != new_bytes(rec['data']).hex() else 'its file is in place')
+                                           + (f', other files: {a["stray"]}' if a['stray'] else '') + f' - {place_text(rec)}',
+                                   'case': dict(full, where=['step', where])})
         elif tag == 'litter' and not a['ok']:
             rec = steps[where[1]] if where[0] == 'step' else impl['trials'][where[1]]['first']
             res.violations.append({'sig': 'C17:tmp-left-behind', 'what': f'after the save returned the directory holds {rec["listing"]}',
@@ -1465,6 +1628,8 @@ def check_case(ctx, res, spec, case, quick_crash=3, kind='history'):
     nsaves = sum(1 for r in steps if r['evs'])
     faulted = sum(1 for r in steps if any(e[-1] == 'FAULT' for e in r['evs']))
     res.count('history.saves=%s' % min(nsaves, 4))
+    res.count('place.subdirs=%s' % (len(_PLACE['chain']) - 2))
+    res.count('history.wipes=%s' % sum(1 for a in case['acts'] if a['a'] == 'wipe'))
     res.count('history.faulted-inline=%s' % min(faulted, 2))
     for p in spec['params']:
         res.count('dt.' + p['dt'][0])
@@ -1721,6 +1886,7 @@ def run(ctx):
     for _ in range(ctx.budget(110, 400)):
         spec = gen_spec(rng, big)
         case = gen_case(rng, spec, big)
+        use_place(ctx, case.get('eq', 'eq'))
         if rng.random() < 0.4:
             # start from a file written by an earlier run for (possibly) other values, or a damaged one; the configuration
             # may have been edited between the two runs (values added, removed, changed)
